@@ -192,7 +192,8 @@ def run(chk):
     chk.coverage["oracle_evaluations_on_impl"] = len(recs)
     for i, v in bad[:3]:
         r = recs[i]
-        chk.violation({"property": "C20", "input": {"password_hex": r["pw"], "names_hex": r["names"]},
+        chk.violation({"property": "C20", "what": "ReasonablePassword returned %d where the first applicable rule is %d (input kind %s)" % (r["result"], v, r["kind"]),
+                       "input": {"password_hex": r["pw"], "names_hex": r["names"]},
                        "returned": r["result"], "first_applicable_rule": v, "kind": r["kind"],
                        "replay": "sessions.ReasonablePassword(<password>, <names>)"})
     if not bad and mism:
